@@ -895,21 +895,27 @@ fn sampler_cases(o: &mut Out, tier: &str) {
         }
     }
     // cone rejection: with a cone about the identity a ball-accepted point outside the cone must be
-    // rejected (next attempt consumed), never clamped
-    let cone = SO3StateSpace::new(Some((SO3State::identity(), 1.0))).unwrap();
-    for (a, b, c, d) in [(12u64, 8u64, 8u64, 8u64), (8, 8, 8, 12), (8, 12, 8, 9), (9, 8, 8, 12), (4, 8, 8, 9)] {
-        let w = |j: u64| j << (64 - bits);
-        let acc = [w(8), w(8), w(8), w(12)]; // identity direction: inside every cone
-        let mut words = vec![w(a), w(b), w(c), w(d)];
-        words.extend_from_slice(&acc);
-        let mut r = ScriptRng { words, pos: 0, log: vec![] };
-        let s = cone.sample_uniform(&mut r).unwrap();
-        let v = [(a as i64 - h) as f64, (b as i64 - h) as f64, (c as i64 - h) as f64, (d as i64 - h) as f64];
-        let n = (v[0] * v[0] + v[1] * v[1] + v[2] * v[2] + v[3] * v[3]).sqrt();
-        let dev = 2.0 * (v[3].abs() / n).min(1.0).acos();
-        let par = ((s.x * v[0] + s.y * v[1] + s.z * v[2] + s.w * v[3]) / n - 1.0).abs() <= 1e-9;
-        o.ev(json!({"ev": "sp", "sp": "so3", "op": "conesampler", "j": [a, b, c, d], "H": h, "incone": dev <= 1.0, "nearedge": (dev - 1.0).abs() < 1e-6,
-                    "words": r.log.len(), "parallel": par, "insat": cone.satisfies_bounds(&s)}));
+    // rejected (next attempt consumed), never clamped; inside the cone it is returned as is. Narrow,
+    // medium and wide cones.
+    for cone_angle in [0.3f64, 1.0, 2.0] {
+        let cone = SO3StateSpace::new(Some((SO3State::identity(), cone_angle))).unwrap();
+        for (a, b, c, d) in [(12u64, 8u64, 8u64, 8u64), (8, 8, 8, 12), (8, 12, 8, 9), (9, 8, 8, 12), (4, 8, 8, 9), (9, 9, 8, 14), (8, 7, 9, 15),
+                             (10, 8, 8, 13), (8, 8, 11, 12), (7, 7, 7, 13)] {
+            let w = |j: u64| j << (64 - bits);
+            let acc = [w(8), w(8), w(8), w(12)]; // identity direction: inside every cone
+            let mut words = vec![w(a), w(b), w(c), w(d)];
+            words.extend_from_slice(&acc);
+            let mut r = ScriptRng { words, pos: 0, log: vec![] };
+            let s = cone.sample_uniform(&mut r).unwrap();
+            let v = [(a as i64 - h) as f64, (b as i64 - h) as f64, (c as i64 - h) as f64, (d as i64 - h) as f64];
+            let n = (v[0] * v[0] + v[1] * v[1] + v[2] * v[2] + v[3] * v[3]).sqrt();
+            let dev = 2.0 * (v[3].abs() / n).min(1.0).acos();
+            let par = ((s.x * v[0] + s.y * v[1] + s.z * v[2] + s.w * v[3]) / n - 1.0).abs() <= 1e-9;
+            let ident = (s.w - 1.0).abs() <= 1e-9;
+            o.ev(json!({"ev": "sp", "sp": "so3", "op": "conesampler", "j": [a, b, c, d], "H": h, "cone": cone_angle, "incone": dev <= cone_angle,
+                        "nearedge": (dev - cone_angle).abs() < 1e-6, "words": r.log.len(), "parallel": par, "fallback": ident,
+                        "insat": cone.satisfies_bounds(&s)}));
+        }
     }
 }
 
